@@ -26,6 +26,11 @@ def straightline(body):
             txt = txt.replace(p, "«%s»" % store[p]) if False else txt
         for nm in sorted(env, key=len, reverse=True):
             txt = re.sub(r"(?<![\w.])%s\b" % re.escape(nm), lambda m: env[nm], txt)
+        # a borrowed place used as a place (`(&mut self.scopes[i].instructions).code.push(..)`) is that place
+        def unborrow(m):
+            nxt = txt[m.end():m.end() + 1]
+            return m.group(1) if nxt in ("(", "[") else m.group(0)
+        txt = re.sub(r"&(?:mut )?(self\.scopes\[self\.scope_index\](?:\.\w+)*)", unborrow, txt)
         return txt
 
     if body.get("k") != "block":
@@ -64,17 +69,48 @@ def straightline(body):
     return store, calls, res
 
 
+def unborrow_text(txt):
+    def unborrow(m):
+        nxt = txt[m.end():m.end() + 1]
+        return m.group(1) if nxt in ("(", "[") else m.group(0)
+    return re.sub(r"&(?:mut )?(self\.scopes\[self\.scope_index\](?:\.\w+)*)", unborrow, txt)
+
+
+def _flatten(n):
+    """blocks that only wrap a value (what inlining a one-expression function leaves) replaced by the value"""
+    if isinstance(n, list):
+        return [_flatten(x) for x in n]
+    if not isinstance(n, dict):
+        return n
+    n = {k: _flatten(v) for k, v in n.items()}
+    if n.get("k") == "block" and n.get("inlined") and not n.get("stmts") and n.get("expr") is not None:
+        return n["expr"]
+    return n
+
+
 def check(F, R, defs=None):
     def fn(name):
         f = F.fn(C + name)
         R.anchor(C + name, f)
         return f
 
+    def tiny(c_):
+        g_ = F.fns.get(c_)
+        b_ = H.body_of(g_) if g_ else None
+        return not (c_.startswith(C) and b_ is not None and b_.get("k") == "block" and not b_.get("stmts") and b_.get("expr") is not None
+                    and H.last(c_) != "get_curr_instructions" and H._size(b_) <= 14)
+
+    def hbody(f):
+        return _flatten(H.inline_helpers(F, H.body_of(f), max_size=14, skip=tiny, depth=1))
+
     def sl(name):
         f = fn(name)
         if f is None:
             return None, None
-        r = straightline(H.body_of(f))
+        # one-expression accessors of the compiler (`fn curr_instructions_mut(&mut self) -> &mut Instructions { &mut self.scopes[..].instructions }`)
+        # are read as the place / value they stand for
+        body = hbody(f)
+        r = straightline(body)
         if r is None:
             R.ob("helper-model", name, False, "the helper is no longer straight-line code; the emission verifier's model of it must be re-derived", F.loc(f))
         return f, r
@@ -135,8 +171,8 @@ def check(F, R, defs=None):
                  "%s / %s" % (defs.get("Pop"), defs.get("ReturnValue")))
     f = fn("is_last_instruction")
     if f is not None:
-        leaves = H.return_leaves(H.body_of(f))
-        got = sorted((H.render(e), H.guard_text(g)) for e, g in leaves)
+        leaves = H.return_leaves(hbody(f))
+        got = sorted((unborrow_text(H.render(e)), unborrow_text(H.guard_text(g))) for e, g in leaves)
         want = [("(%s.last_ins.opcode == opcode)" % S, "!%s.instructions.code.is_empty()" % S), ("false", "%s.instructions.code.is_empty()" % S)]
         R.ob("helper-model", "is_last_instruction: false on an empty stream, else last_ins.opcode == opcode", got == want, str(got), F.loc(f))
     f, r = sl("enter_scope")
